@@ -5,7 +5,7 @@
     fwrite <maxlen> <vals> <script>                 blocking Writer, one write per value
     fread  <maxlen> <nreads> <streamhex> <script>   blocking Reader, nreads reads
     aread  <maxlen> <streamhex> <script> <acts>     AsyncReader; acts: string over p (poll) / d (drop)
-    awrite <maxlen> <vals> <script> <acts>          AsyncWriter; acts: w<i> (write vals[i]) s (sync) p (poll) d (drop)
+    awrite <maxlen> <vals> <script> <acts>          AsyncWriter; acts: w<i> (write vals[i]) s (sync) p (poll) d (drop) c<i>/cs (call, drop unpolled)
 
   vals   : comma separated  u<dec> | b<hex or -> | x<hex or ->   (`-` = no values)
   script : comma separated  <dec> (transfer up to k) | z (Ok(0)) | i (Interrupted) | e (error) | p (Pending / WouldBlock)
@@ -164,10 +164,18 @@ def showWPoll : Option (Poll WRet) → String
 inductive XAct where
   | act (a : WAct Val)
   | setMax (k : Nat)
+  /-- `c<i>` / `cs`: `write(vals[i])` / `sync()` is called and the future dropped without a poll.  Futures are lazy: the writer is
+      untouched (a future pending before is gone, the call needs `&mut self`). -/
+  | create
 
 def parseXAct (vs : List Val) (s : String) : Option XAct :=
   match s.toList with
   | 'm' :: r => (String.ofList r).toNat?.map .setMax
+  | ['c', 's'] => some .create
+  | 'c' :: r => do
+    let i ← (String.ofList r).toNat?
+    let _ ← vs[i]?
+    pure .create
   | _ => (parseWAct vs s).map .act
 
 def runX : List XAct → WSys → List (Option (Poll WRet)) × WSys
@@ -178,6 +186,9 @@ def runX : List XAct → WSys → List (Option (Poll WRet)) × WSys
     (o :: os, s'')
   | .setMax k :: r, s =>
     let (os, s'') := runX r ⟨s.wr.setMaxLen k, none⟩
+    (none :: os, s'')
+  | .create :: r, s =>
+    let (os, s'') := runX r ⟨s.wr, none⟩
     (none :: os, s'')
 
 def awriteOp (w : List String) : String :=
